@@ -582,6 +582,10 @@ def run_n9_n11(chk, repo):
             if isinstance(r, ast.Call) and (getattr(r.func, 'id', '') == 'all' or (
                     isinstance(r.func, ast.Attribute) and r.func.attr == 'all')):
                 cmps = [c for c in ast.walk(r) if isinstance(c, ast.Compare) and len(c.ops) == 1 and isinstance(c.ops[0], op)]
+                # operator.lt(e, value) is e < value
+                opname = {ast.Lt: 'lt', ast.LtE: 'le', ast.Gt: 'gt', ast.GtE: 'ge', ast.Eq: 'eq'}[op]
+                cmps += [c for c in ast.walk(r) if isinstance(c, ast.Call) and unparse(c.func) == f'operator.{opname}'
+                         and len(c.args) == 2]
                 ok = ok or bool(cmps)
         chk.instance(N10, f'ArrayEvaluator.{name}: element-wise all(...) with the matching operator: {ok}')
         if not ok:
